@@ -6,8 +6,10 @@ import (
 	"fmt"
 	"io"
 	"math/big"
+	"os"
 	"os/exec"
 	"strings"
+	"sync/atomic"
 	"time"
 
 	"symgo/sym"
@@ -32,6 +34,10 @@ type Stats struct {
 	SolverNs int64
 }
 
+// DumpDir, when set, receives the transcript of every query answered "unknown".
+var DumpDir string
+var dumpSeq int64
+
 type Solver struct {
 	Kind    string // z3, z3-new, cvc5
 	cmd     *exec.Cmd
@@ -40,8 +46,91 @@ type Solver struct {
 	P       *sym.Printer
 	Stats   Stats
 	Log     *strings.Builder // when non-nil, everything sent since last Reset is recorded
+	Fallbacks []string        // solver kinds tried (one-shot) when the primary answers unknown
+	FallbackStats map[string]int
 	timeout int
 	dead    bool
+	lastModel map[string]*big.Int
+}
+
+// transcript returns everything sent since the last Reset without earlier queries.
+func (s *Solver) transcript() string {
+	var sb strings.Builder
+	for _, l := range strings.Split(s.Log.String(), "\n") {
+		if strings.HasPrefix(l, "(check-sat") || strings.HasPrefix(l, "(get-value") || strings.HasPrefix(l, "(reset") {
+			continue
+		}
+		sb.WriteString(l)
+		sb.WriteString("\n")
+	}
+	return sb.String()
+}
+
+// fallback re-decides the current query one-shot with the other solvers.
+func (s *Solver) fallback() Result {
+	if len(s.Fallbacks) == 0 && DumpDir == "" {
+		return Unknown
+	}
+	text := s.transcript()
+	names := s.P.Declared()
+	var gv strings.Builder
+	if len(names) > 0 {
+		gv.WriteString("(get-value (")
+		for _, n := range names {
+			gv.WriteString(sym.QuoteName(n) + " ")
+		}
+		gv.WriteString("))\n")
+	}
+	n := atomic.AddInt64(&dumpSeq, 1)
+	dir := DumpDir
+	if dir == "" {
+		dir = os.TempDir()
+	}
+	path := fmt.Sprintf("%s/unknown-%d-%d.smt2", dir, os.Getpid(), n)
+	if err := os.WriteFile(path, []byte(text+"(check-sat)\n"+gv.String()), 0o644); err != nil {
+		return Unknown
+	}
+	if DumpDir == "" {
+		defer os.Remove(path)
+	}
+	for _, kind := range s.Fallbacks {
+		var cmd *exec.Cmd
+		switch kind {
+		case "cvc5":
+			// cvc5 wants a logic; prepend one in a copy
+			p2 := path + ".cvc5"
+			os.WriteFile(p2, []byte("(set-logic ALL)\n"+text+"(check-sat)\n"+gv.String()), 0o644)
+			defer os.Remove(p2)
+			cmd = exec.Command("cvc5", "--lang=smt2", "--produce-models", fmt.Sprintf("--tlimit=%d", s.timeout*3), p2)
+		default:
+			cmd = exec.Command(kind, fmt.Sprintf("-T:%d", (s.timeout*3+999)/1000), path)
+		}
+		t0 := time.Now()
+		out, _ := cmd.Output()
+		s.Stats.SolverNs += time.Since(t0).Nanoseconds()
+		lines := strings.SplitN(strings.TrimSpace(string(out)), "\n", 2)
+		if len(lines) == 0 {
+			continue
+		}
+		switch strings.TrimSpace(lines[0]) {
+		case "unsat":
+			s.FallbackStats[kind+":unsat"]++
+			return Unsat
+		case "sat":
+			s.FallbackStats[kind+":sat"]++
+			if len(lines) > 1 && !strings.Contains(lines[1], "(error") {
+				if m, err := parseModel(lines[1], map[string]*big.Int{}); err == nil {
+					s.lastModel = m
+				}
+			}
+			if s.lastModel == nil {
+				s.lastModel = map[string]*big.Int{}
+			}
+			return Sat
+		}
+		s.FallbackStats[kind+":unknown"]++
+	}
+	return Unknown
 }
 
 func argsFor(kind string, timeoutMs int) (string, []string) {
@@ -83,6 +172,13 @@ func (s *Solver) start() error {
 	s.out = bufio.NewReaderSize(out, 1<<16)
 	s.P = sym.NewPrinter(s.send)
 	s.dead = false
+	if s.Log == nil {
+		s.Log = &strings.Builder{}
+	}
+	s.Log.Reset()
+	if s.FallbackStats == nil {
+		s.FallbackStats = map[string]int{}
+	}
 	s.preamble()
 	return nil
 }
@@ -128,9 +224,7 @@ func (s *Solver) Reset() {
 	}
 	s.send("(reset)")
 	s.P.Reset()
-	if s.Log != nil {
-		s.Log.Reset()
-	}
+	s.Log.Reset()
 	s.preamble()
 }
 
@@ -199,6 +293,10 @@ func (s *Solver) Check() Result {
 		s.Stats.Errors++
 		res = Unknown
 	}
+	s.lastModel = nil
+	if res == Unknown && !s.dead {
+		res = s.fallback()
+	}
 	switch res {
 	case Sat:
 		s.Stats.Sat++
@@ -228,6 +326,9 @@ func (s *Solver) CheckWith(extra ...*sym.Term) Result {
 // Model returns values of all declared variables. Must follow a Sat answer of Check
 // (not CheckWith, which pops). Bool: 0/1; BV: unsigned value.
 func (s *Solver) Model() (map[string]*big.Int, error) {
+	if s.lastModel != nil {
+		return s.lastModel, nil
+	}
 	names := s.P.Declared()
 	m := map[string]*big.Int{}
 	if len(names) == 0 {
@@ -256,6 +357,10 @@ func (s *Solver) Model() (map[string]*big.Int, error) {
 			break
 		}
 	}
+	return parseModel(text, m)
+}
+
+func parseModel(text string, m map[string]*big.Int) (map[string]*big.Int, error) {
 	toks := tokenize(text)
 	pos := 0
 	ex, err := parseSexp(toks, &pos)
